@@ -14,7 +14,7 @@ RULE = ("minimally-pushed scripts from the C02 grammar over every opcode of the 
         "and 65534..65537 in every encoding that can carry it, every opcode at top level / pass / else / nested positions, each "
         "IF-family opcode (incl. VERIF/VERNOTIF) as opener in each reader with and without ELSE, alias neighbours ('0k', '+k', "
         "'-k'), the empty input for every op; every rendering is cross-checked against to_asm_string_impl, from_hex, clone and "
-        "scripts re-assembled with from_script_bits / push / push_array; call-history stream script.build_history: one Script object "
+        "scripts re-assembled with from_script_bits / push / push_array; pairwise combination stream (every special rendering - OP_0 as '0', OP_1..OP_16 / OP_1NEGATE, numeric-looking and name-like short pushes - before and after every mode-switching looking opcode such as OP_RETURN, OP_CODESEPARATOR, OP_VERIFY, IF / ELSE / ENDIF, big pushes, at top level and nested, bytes side and text side); call-history stream script.build_history: one Script object "
         "grown by push / push_array / from_script_bits / clone in every order of modes and chunks, observed after every step; "
         "non-trivial = the model returns OK; distinct by (op, arguments)")
 TRUSTED = ["hand-written Gallina model coq/Model/Asm.v of script_bits_to_asm_string / map_string_to_script_bit / from_asm_string in "
